@@ -678,6 +678,18 @@ def _c07():
 
 # "the herds never eat more grass than is available": C07's feeding contracts, re-run under this property
 CONTRACTS += _c07()
+
+
+def _c18_retime():
+    """The feed round's meat series is its own herds' series RE-TIMED: the re-timing must preserve the horizon total and
+    must decline (round skipped) when feeding lowers the total - C18's contract of that helper, re-run under this
+    property (SecondRoundHandOff above takes exactly this as the helper's summary)."""
+    from contracts import C18
+    from contracts.common import relabelled
+    return relabelled([c for c in C18.CONTRACTS if type(c).__name__ == "Retime"], "C05")
+
+
+CONTRACTS += _c18_retime()
 EXTRA = []
 TRUSTED = [
     "machine floats treated as mathematical reals",
